@@ -396,6 +396,29 @@ def r9(p, rep):
 
 
 
+def r11(p, rep):
+    rep.rule("C03.R11", "a local that may be None (None literal, dict.get, a project function that returns None on some path) is not dereferenced before it was tested (no AttributeError / TypeError on None)", "nullness dataflow over the statement CFG", floor=8)
+    from sa.nullness import Nullness
+
+    nn = Nullness(p)
+    rep.info["functions_that_may_return_none"] = len(nn.mrn)
+    for f in p.funcs.values():
+        if not isinstance(f.node, (ast.FunctionDef, ast.AsyncFunctionDef)) or f.module.name in OFF_PATH_MODULES:
+            continue
+        n, hits = nn.analyse(f)
+        if not n:
+            continue
+        seen = set()
+        for tgt, x, why in hits:
+            key = f"{f.qualname}:deref:{tgt.id}"
+            if key in seen:
+                continue
+            seen.add(key)
+            rep.violation("C03.R11", key, f"{f.module.rel}:{x.lineno}", f"`{norm(x)[:60]}` uses `{tgt.id}`, which may be None here ({why}) and is not tested on this path: AttributeError / TypeError (internal exception types) instead of a documented error")
+        if not hits:
+            rep.ok("C03.R11", f"{f.qualname}:maybe-none-locals", f.loc, f"{n} maybe-None binding(s); every dereference is behind a None test")
+
+
 def run(p, rep, tier):
     r1(p, rep)
     r2(p, rep, tier)
@@ -407,6 +430,7 @@ def run(p, rep, tier):
     r7(p, rep)
     r8(p, rep)
     r9(p, rep)
+    r11(p, rep)
     # clauses shared with C02 / C12 whose violation surfaces as an internal exception type of an entry point
     from . import c02, c12
 
